@@ -113,8 +113,10 @@ AlphaShrinks == (NonEmpty /\ InRegime) => \A top \in Tops :
    \A IA1, IA2 \in Alphas : IA1 < IA2 =>
       /\ tbs[IA2][top].t = tbs[IA1][top].t /\ tbs[IA2][top].v \subseteq tbs[IA1][top].v
       /\ \A n \in 1..top : SvcValidatedOf(st, tbs[IA1][n].t, n, IA2) \subseteq tbs[IA1][n].v
-\* NOT claimed: that the set of ALL validated groups shrinks with alpha - a core that is no longer validated
-\* releases its sub-groups, which are then tested.  (It holds on every instance explored here; kept as a probe.)
+\* NOT claimed (not a registered invariant): that the set of ALL validated groups shrinks with alpha - a core that is
+\* no longer validated releases its sub-groups, which are then tested and may be validated.  No instance this small
+\* shows it, larger ones do: hyperedges {1}x5 {1,2,3,5,6}x3 {1,4}x10 {2,3,5,6}x3 {3,6,7}x2 {4,6}x1 {5,6}x12 validate
+\* {1,2,3,5,6} at alpha = 0.05 and {2,3,5,6} instead at alpha = 0.01.
 AllValidated(IA, top) == LET tb == TLCEval(SvcTable(st, top, IA)) IN UNION {tb[n].v : n \in 1..top}
 AlphaShrinksGlobally == (NonEmpty /\ InRegime) => \A IA1, IA2 \in Alphas : IA1 <= IA2 => \A top \in Tops :
    AllValidated(IA2, top) \subseteq AllValidated(IA1, top)
